@@ -359,8 +359,8 @@ pub(crate) fn extract_code_block_start(line: &str) -> Option<(&str, &str, &str)>
             if ch == '{' {
                 return Some((
                     &line[0..language_start],
-                    (line[language_start..index].trim_end()),
-                    &line[index..],
+                    line[language_start..index].trim(),
+                    line[index..].trim_end(),
                 ));
             }
         } else if ch != '`' {
@@ -372,7 +372,7 @@ pub(crate) fn extract_code_block_start(line: &str) -> Option<(&str, &str, &str)>
         }
     }
 
-    language_start.map(|index| (&line[0..index], &line[index..], ""))
+    language_start.map(|index| (&line[0..index], line[index..].trim(), ""))
 }
 
 pub(crate) trait NumberedLines {
